@@ -39,6 +39,8 @@ pub struct Entry {
     pub functional: bool,
     /// names for an ideal-gas model (poling2000), if available for all components
     pub ig_names: Option<Vec<String>>,
+    /// hard-sphere diameters for entries whose density scale is a packing fraction (FMT)
+    pub hs_sigma: Option<Vec<f64>>,
 }
 
 impl Entry {
@@ -74,7 +76,7 @@ impl Entry {
 }
 
 fn e(id: &str, eos: ResidualModel, n: usize, tref: f64, quick: bool) -> Entry {
-    Entry { id: id.to_string(), eos: Arc::new(eos), n, tref, quick, electrolyte: false, functional: false, ig_names: None }
+    Entry { id: id.to_string(), eos: Arc::new(eos), n, tref, quick, electrolyte: false, functional: false, ig_names: None, hs_sigma: None }
 }
 
 pub fn pcsaft_params(spec: &[(&[&str], &str)]) -> Arc<PcSaftParameters> {
@@ -254,7 +256,9 @@ pub fn zoo(tier: Tier) -> Vec<Entry> {
             512.0,
             nm == "kr",
         ));
-        z.push(f(&format!("fmt:{nm}:2"), ResidualModel::FmtFunctional(FMTFunctional::new(&arr1(&[3.0, 4.0]), v)), 2, 300.0, nm == "aswb"));
+        let mut en = f(&format!("fmt:{nm}:2"), ResidualModel::FmtFunctional(FMTFunctional::new(&arr1(&[3.0, 4.0]), v)), 2, 300.0, nm == "aswb");
+        en.hs_sigma = Some(vec![3.0, 4.0]);
+        z.push(en);
     }
     z.push(f("pcsaftfunc:water:wb", ResidualModel::PcSaftFunctional(PcSaftFunctional::new(pcsaft_params(&[(&["water"], "gross2002")]))), 1, 647.0, false));
     z.push(f(
